@@ -101,6 +101,8 @@ type progGen struct {
 	fileIdx  int // index of the include file being generated (-1: main/base)
 	tags     map[string]bool
 	inMacro  bool
+	heavyOK  bool
+	hugeUsed bool
 }
 
 func (p *progGen) pick(ss []string) string { return ss[p.g.Draw(len(ss))] }
@@ -284,8 +286,12 @@ func (p *progGen) node(b *strings.Builder, depth int) {
 		b.WriteString("{% include lzv")
 		p.includeTail(b)
 	case "big":
-		if p.g.Draw(6) == 0 {
-			b.WriteString("{{ huge }}") // > 1 MiB of output in one go
+		if p.g.Draw(6) == 0 && p.heavyOK && !p.hugeUsed {
+			// > 1 MiB of output in one go: once per program, and only in the single-task checks
+			// (under the race detector and statement-level instrumentation, times tasks, times
+			// solo references, one such value costs minutes)
+			p.hugeUsed = true
+			b.WriteString("{{ huge }}")
 			return
 		}
 		fmt.Fprintf(b, "{{ bigs%s }}", p.pick([]string{"", "|length", "|upper", "|truncatechars:20"}))
@@ -571,6 +577,7 @@ func GenProgramOpt(g *Tape, size int, allowMut bool) *ProgSpec {
 	if !allowMut {
 		p.off["ctxmut"] = true
 	}
+	p.heavyOK = allowMut
 	if g.Draw(10) == 9 {
 		// a "plain" program: nothing but text and bare variable lookups
 		for _, c := range allConstructs {
